@@ -140,6 +140,10 @@ type Prop struct {
 	// Post, if set, runs after the bubble has ended (outside simulated time):
 	// history checks such as linearizability.
 	Post func(c *Ctx)
+	// LeakClass, if set, makes tasks that are still blocked after teardown and
+	// 30 further simulated seconds a violation of that class (properties that
+	// say nothing waits forever); otherwise such runs are only counted.
+	LeakClass string
 }
 
 var registry = map[string]*Prop{}
@@ -239,6 +243,9 @@ func RunPlan(t *testing.T, p *Plan, keepLog bool) (res *Result) {
 			defer Install(nil)
 			prop.Exec(c)
 			res.Leaked = s.Drain(30 * time.Second)
+			if len(res.Leaked) > 0 && prop.LeakClass != "" && !c.Stopped() {
+				c.Fail(prop.LeakClass, "still blocked after shutdown: %s", strings.Join(res.Leaked, "; "))
+			}
 			res.Steps = s.Steps
 			res.SimMS = s.SimTime.Milliseconds()
 			res.Sleeps = s.ClockSleeps
